@@ -13,6 +13,9 @@ verus! {
 
 #[verifier::external_type_specification]
 #[verifier::external_body]
+pub struct ExRecord<'a>(log::Record<'a>);
+#[verifier::external_type_specification]
+#[verifier::external_body]
 #[verifier::reject_recursive_types(T)]
 pub struct ExArrayQueue<T>(crossbeam_queue::ArrayQueue<T>);
 #[verifier::external_type_specification]
@@ -57,11 +60,33 @@ pub uninterp spec fn extend_rel<T, I>(before: Seq<T>, it: I, after: Seq<T>) -> b
 pub broadcast axiom fn ax_extend_u8_slice(before: Seq<u8>, it: &[u8], after: Seq<u8>)
     ensures #[trigger] extend_rel::<u8, &[u8]>(before, it, after) == (after == before + it@);
 
+pub assume_specification<T, E, F: FnOnce(&E)>[ Result::<T, E>::inspect_err ](res: Result<T, E>, f: F) -> (r: Result<T, E>)
+    requires res is Err ==> f.requires((&res->Err_0,)),
+    ensures r == res;
+/// `<Vec<u8> as io::Write>::write_all` appends the bytes and cannot fail
+pub assume_specification<A: std::alloc::Allocator>[ <Vec<u8, A> as std::io::Write>::write_all ](v: &mut Vec<u8, A>, buf: &[u8]) -> (r: std::io::Result<()>)
+    ensures r is Ok, final(v)@ == old(v)@ + buf@;
+
 pub mod shims {
     use super::*;
     /// SHIM (R4): the fn-pointer alias FormatFunction
     #[derive(Clone, Copy)]
     pub struct VFormatFn { _o: () }
+    pub struct DeferredNow { _o: () }
+    /// oracle: the bytes a format function produces for a record (the format functions are outside the verifier, C20)
+    pub uninterp spec fn fmt_out(f: VFormatFn, record: &log::Record) -> Seq<u8>;
+    impl VFormatFn {
+        #[verifier::external_body]
+        pub fn call(&self, w: &mut Vec<u8>, now: &mut DeferredNow, record: &log::Record) -> (r: Result<(), std::io::Error>)
+            ensures r is Ok ==> final(w)@ == old(w)@ + fmt_out(*self, record),
+        { unimplemented!() }
+    }
+    pub enum ErrorCode { Write, Format }
+    pub trait VErr {}
+    impl VErr for std::io::Error {}
+    impl<'a> VErr for &'a std::io::Error {}
+    #[verifier::external_body]
+    pub(crate) fn eprint_err<E: VErr>(error_code: ErrorCode, msg: &str, err: &E) { unimplemented!() }
     pub struct State { _o: () }
     impl State {
         // the synchronous arm is decided in unit `handle`; here every function requires the Async arm
@@ -88,6 +113,8 @@ pub mod state_handle {
     use super::util::{ASYNC_FLUSH, ASYNC_SHUTDOWN, ASYNC_FLUSH_spec, ASYNC_SHUTDOWN_spec};
     use std::sync::{Arc, Mutex};
     use std::thread::JoinHandle;
+    use log::Record;
+    use std::io::Write;
     use {crossbeam_channel::Sender, crossbeam_queue::ArrayQueue};
     type FormatFunction = VFormatFn;
     broadcast use ax_send_msg_ok, ax_pooled_empty, ax_to_owned_u8, ax_extend_u8_slice;
@@ -99,7 +126,29 @@ pub mod state_handle {
 
     pub(crate) open spec fn is_control(m: Seq<u8>) -> bool { m == ASYNC_FLUSH_spec() || m == ASYNC_SHUTDOWN_spec() }
 
+    /// C15 anchor "record messages always end with the line ending, so they can never equal a control message"
+    pub(crate) proof fn lemma_framed_not_control(x: Seq<u8>, e: Seq<u8>) //@lemma C15
+        requires e.len() > 0, e.last() == 10u8,
+        ensures !is_control(x + e),
+    {
+        let m = x + e;
+        assert(m.last() == 10u8);
+        assert(ASYNC_FLUSH_spec().last() == 70u8);
+        assert(ASYNC_SHUTDOWN_spec().last() == 83u8);
+    }
     impl AsyncHandle {
+        pub closed spec fn ending(&self) -> Seq<u8> { self.line_ending@ }
+        pub closed spec fn fmt(&self) -> VFormatFn { self.format_function }
+    //@ fn src/writers/file_log_writer/state_handle.rs impl AsyncHandle / fn write
+    //@   ret r
+    //@   props C20,C15
+    //@   rule R4c 1
+    //@   rule R3 *
+    //@   req[AsyncHandle::write.pre.ending] self.ending().len() > 0 && self.ending().last() == 10u8
+    //@   req[AsyncHandle::write.pre.perm] forall|m: Seq<u8>| #[trigger] send_ok(m) <==> m == fmt_out(self.fmt(), record) + self.ending()
+    //@   closure 1 sig |e: &std::io::Error| -> (r: ())
+    //@   closure 2 sig |e: &std::io::Error| -> (r: ())
+    //@   canary
     //@ fn src/writers/file_log_writer/state_handle.rs impl AsyncHandle / fn pop_buffer
     //@   ret r
     //@   props C15
